@@ -1485,6 +1485,14 @@ def _tuple(it, a, k):
 def _set(it, a, k):
     if a and hasattr(a[0], 'pyvc_toset'):
         return a[0].pyvc_toset(it)
+    if a and isinstance(a[0], SymRange):
+        import z3 as _z3
+        from .symcoll import SymSet
+        r = a[0]
+        if unbox(r.step) != 1:
+            raise Unsupported('set(range) with a step')
+        x = _z3.Int('x!range')
+        return SymSet(_z3.Lambda([x], _z3.And(z3int(r.lo) <= x, x < z3int(r.hi))), _z3.IntSort())
     if getattr(it, 'sym_containers', False):
         from .symcoll import SymSet, to_symset
         import z3 as _z3
@@ -1559,8 +1567,32 @@ def _zip(it, a, k):
     return list(zip(*[it.iterate(x) for x in a]))
 
 
+def _minmax_symset(it, which, S):
+    """min / max of a symbolic set of ints (extern contract): the result is a member and a bound; ValueError when empty."""
+    import z3 as _z3
+    from .symcoll import SymSet
+    empty = S.term == _z3.EmptySet(S.sort)
+    if it.ctx.branch(empty):
+        it.throw('ValueError', f'{which}() arg is an empty sequence')
+    m = it.ctx.fresh_int(which)
+    x = _z3.Int('x!' + which)
+    bound = (m <= x) if which == 'min' else (x <= m)
+    it.ctx.assume(_z3.IsMember(m, S.term))
+    it.ctx.assume(_z3.ForAll([x], _z3.Implies(_z3.IsMember(x, S.term), bound)))
+    # a useful instance of the bound: the neighbour beyond the extremum is not a member
+    it.ctx.assume(_z3.Not(_z3.IsMember(m - 1 if which == 'min' else m + 1, S.term)))
+    return Sym(m, 'int')
+
+
 def _minmax(which):
     def f(it, a, k):
+        if len(a) == 1:
+            from .symcoll import SymSet
+            v = unbox(a[0])
+            if isinstance(v, SymSet) and v.sort == z3.IntSort():
+                return _minmax_symset(it, which, v)
+            if hasattr(v, 'pyvc_minmax'):
+                return v.pyvc_minmax(it, which)
         items = it.iterate(a[0]) if len(a) == 1 else list(a)
         key = k.get('key')
         if not items:
